@@ -15,6 +15,7 @@ type Scenario struct {
 	Clk  string            `json:"clk"` // clock class of the history (mono/tie/skew/none), computed by TLC; a label only
 	Anc  [][]int           `json:"anc"` // ancestor set per commit, computed by TLC
 	B    [][3][]int        `json:"b"`   // [S, AllowedBases(S), CommonAnc(S)] per set of inputs, computed by TLC
+	WC   bool              `json:"wc"`  // dev was computed (WithCoded)
 	Dev  []json.RawMessage `json:"dev"` // [tuple, answer] where the transcription SeekAsCoded leaves the contract
 	Only *Focus            `json:"only,omitempty"`
 }
@@ -305,7 +306,7 @@ func Replay(i int, raw []byte) child.Result {
 			}
 			m := Mismatch{Sig: "graph/seek/" + kind + "/" + heads(tuple), Op: "seek", Args: append([]int{}, tuple...),
 				Expected: map[string]interface{}{"allowed": e[0], "common_ancestors": e[1]}, Observed: obs}
-			if sc.Dev != nil && heads(tuple) != "heads=1" && distinct(tuple) {
+			if sc.WC && distinct(tuple) {
 				// the generator evaluates the transcription on tuples of distinct commits only
 				p := isDev && pred == res
 				m.Predicted = &p
